@@ -129,3 +129,15 @@ Proof.
     destruct X1 as [-> |X1]; [|discriminate]. simpl in Hi.
     left. split; [assumption | eapply holds_any; eassumption].
 Qed.
+
+(* ---- known findings: sites (field, function) taken out of a table before the discipline is checked *)
+Definition remove_known (known : list (string * string)) (tab : list access) : list access :=
+  filter (fun e => negb (existsb (fun p => String.eqb (fst p) (a_loc e) && String.eqb (snd p) (a_fn e)) known)) tab.
+
+Definition is_nil {A} (l : list A) : bool := match l with [] => true | _ => false end.
+
+Lemma remove_known_nil tab : remove_known [] tab = tab.
+Proof. induction tab as [|e r IH]; [reflexivity|]. unfold remove_known in *. simpl. f_equal. exact IH. Qed.
+
+Lemma remove_known_incl known tab e : In e (remove_known known tab) -> In e tab.
+Proof. unfold remove_known. rewrite filter_In. tauto. Qed.
